@@ -105,6 +105,12 @@ uint64_t cmb_datasummary_merge(struct cmb_datasummary *tgt,
     cs.min = (dsp1->min < dsp2->min) ? dsp1->min : dsp2->min;
     cs.max = (dsp1->max > dsp2->max) ? dsp1->max : dsp2->max;
 
+    if (cs.count == 0u) {
+        /* Both are empty, so is the result. Avoid dividing zero by zero below. */
+        *tgt = cs;
+        return 0u;
+    }
+
     const double n1 = (double)dsp1->count;
     const double n2 = (double)dsp2->count;
     const double n = (double)cs.count;
